@@ -109,7 +109,9 @@ def windows_reg_key(comp_expr):
     """
     if _path_is(comp_expr.lhs, ("key",)) \
             or _path_is(comp_expr.lhs, ("values", _ANY_IDX, "name")):
-        comp_expr.rhs.value = comp_expr.rhs.value.lower()
+        # Only string constants can be canonicalized
+        if isinstance(comp_expr.rhs.value, str):
+            comp_expr.rhs.value = comp_expr.rhs.value.lower()
 
 
 def ipv4_addr(comp_expr):
@@ -129,6 +131,9 @@ def ipv4_addr(comp_expr):
     """
     if _path_is(comp_expr.lhs, ("value",)):
         value = comp_expr.rhs.value
+        if not isinstance(value, str):
+            # Only string constants can be canonicalized
+            return
         slash_idx = value.find("/")
         is_cidr = slash_idx >= 0
 
@@ -190,6 +195,9 @@ def ipv6_addr(comp_expr):
     """
     if _path_is(comp_expr.lhs, ("value",)):
         value = comp_expr.rhs.value
+        if not isinstance(value, str):
+            # Only string constants can be canonicalized
+            return
         slash_idx = value.find("/")
         is_cidr = slash_idx >= 0
 
